@@ -353,7 +353,7 @@ Definition read_length (tb : Z) (s : list ch) (ln : Z) : res (option tok * list 
       do r <- read_arg_int_array tb s1 ln; let '(ia, s2, ln2) := r in Ok (Some (TOnNote Reserve.WL false ia), s2, ln2)
     else if is_w cmd "onCycle" "C" then
       do r <- read_arg_int_array tb s1 ln; let '(ia, s2, ln2) := r in Ok (Some (TOnNote Reserve.WL true ia), s2, ln2)
-    else plain s1 ln
+    else plain s ln      (* not a reservation: `cur.index = dot_index`, the dot (and the word) belong to what follows: "l." = the dotted default length *)
   else plain s ln).
 
 (* the common tail of read_octave / read_qlen / read_velocity / read_timing *)
